@@ -482,3 +482,55 @@ Proof.
   unfold ilp_block_line. rewrite toks_terms, tok_le.
   rewrite (flat_map_ext _ _ (fun x => eq_sym (OpbProofs.ilp_term_opb x))). reflexivity.
 Qed.
+
+(** * Sampler output ([call_unigen_python], [call_cmsgen_python]) *)
+
+Lemma lex_sample_lines {A} (mk_text : A -> string) (mk_line : A -> line) xs :
+  (forall x, no_nl (mk_text x) = true) -> (forall x, lex_line (mk_text x) = mk_line x) -> xs <> [] ->
+  lex_file (join nl_s (map mk_text xs) +s+ nl_s) = map mk_line xs ++ [[]].
+Proof.
+  intros Hn Hl Hx. unfold lex_file, nl_s. rewrite lines_app_nl_gen.
+  rewrite lines_join_nl; [|now apply all_no_nl_map|destruct xs; [congruence|discriminate]].
+  rewrite map_app, map_map. f_equal. now apply map_ext.
+Qed.
+
+Definition sample_text (lits : list Z) (term : string) : string :=
+  "v" +s+ String " " (join sp (map string_of_Z lits) +s+ sp +s+ term).
+
+Lemma lex_sample_text lits term :
+  is_word_s term = true ->
+  lex_line (sample_text lits term) = TW "v" :: map TI lits ++ [tok_of_string term].
+Proof.
+  intros H. unfold lex_line, sample_text. rewrite split_ws_cons by reflexivity.
+  rewrite split_ws_join_snoc by (apply words_map_Z || exact H).
+  cbn [map]. now rewrite tok_v, map_app, map_tok_Z.
+Qed.
+
+Lemma no_nl_sample_text lits term : no_nl term = true -> no_nl (sample_text lits term) = true.
+Proof.
+  intros H. unfold sample_text. cbn [String.append no_nl str_forall]. cbn [Ascii.eqb nl negb andb].
+  change (str_forall (fun c => negb (Ascii.eqb c nl)) ?x) with (no_nl x).
+  rewrite !no_nl_app, H, (no_nl_join_sp _ (no_nl_map_Z lits)). reflexivity.
+Qed.
+
+Theorem lex_unigen_format_text samples : lex_file (unigen_format_text samples) = unigen_format samples.
+Proof.
+  unfold unigen_format_text, unigen_format. destruct samples as [|s r]; [reflexivity|].
+  apply (lex_sample_lines unigen_sample_text); [| |discriminate].
+  - intros x. exact (no_nl_sample_text x "0:1" eq_refl).
+  - intros x. exact (lex_sample_text x "0:1" eq_refl).
+Qed.
+
+Theorem lex_cmsgen_format_text ss sols :
+  sols <> [] -> lex_file (cmsgen_format_text ss sols) = cmsgen_format ss sols.
+Proof.
+  intros H. unfold cmsgen_format_text, cmsgen_format.
+  apply (lex_sample_lines (cmsgen_sample_text ss)); [| |exact H].
+  - intros x. exact (no_nl_sample_text _ "0" eq_refl).
+  - intros x. exact (lex_sample_text _ "0" eq_refl).
+Qed.
+
+(** Without any solution [call_cmsgen_python] returns ["\n"], one blank line more
+    than the token-level [cmsgen_format] has; both parse to no sample. *)
+Lemma lex_cmsgen_format_text_nil ss : lex_file (cmsgen_format_text ss []) = [[]; []].
+Proof. reflexivity. Qed.
